@@ -16,7 +16,7 @@ namespace Spydr.Eblif
 
 /-- a word the printer can emit and the lexer reads back: non-empty, no blank, no newline -/
 def GoodWord (s : String) : Prop :=
-  s.toList ≠ [] ∧ ∀ c ∈ s.toList, isWs c = false ∧ c ≠ '\n'
+  s.toList ≠ [] ∧ ∀ c ∈ s.toList, isWs c = false ∧ c ≠ '\n' ∧ c ≠ '\r'
 
 def GoodTok : Tok → Prop
   | Tok.word s => GoodWord s
@@ -63,5 +63,71 @@ def subcktKw (gate : Bool) : String := if gate then ".gate" else ".subckt"
 def subcktLines (gate : Bool) (m : String) (conns : List (String × String)) (info : List InfoStmt) :
     List (List String) :=
   ([subcktKw gate, m] ++ conns.map connWord) :: info.map infoLine
+
+/-! ### exact connectivity -/
+
+/-- the join a single `formal -> actual` entry declares for instance `idx` of model `parent` -/
+def joinOf (idx : Nat) (parent : String) (fa : String × String) : List (Pin × Key) :=
+  match splitIdx fa.2, splitIdx fa.1 with
+  | Except.ok (cn, ci), Except.ok (pn, pi) =>
+      if cn = "unconn" then [] else [(Pin.inst idx pn pi, (parent, cn, ci))]
+  | _, _ => []
+
+/-- the definition `.names` with `k` inputs instantiates, as it is right after its ports were
+    created on demand (ports `in_0 .. in_{k-1}`, `out` when it is generated here) -/
+def namesDef (st : St) (k : Nat) : DefD :=
+  let dn := "logic-gate_" ++ natStr k
+  match findDef (addNamesPorts (ensureDef st dn) dn k) dn with
+  | some d => d
+  | none => { name := dn }
+
+/-- formal -> actual dict of a `.names`: the definition's ports zipped with the listed nets -/
+def namesInfo (st : St) (nets : List String) : List (String × String) :=
+  ((namesDef st (nets.length - 1)).ports.zip nets).foldl (fun l pn => dictSet l pn.1.name pn.2) []
+
+/-- the (pin, net bit) pairs a statement declares; the new instance's index is the number of
+    instances before the statement -/
+def stmtJoins (st : St) (cur : String) : Stmt → List (Pin × Key)
+  | Stmt.subckt _ _ conns _ => (infoMapOf conns).flatMap (joinOf st.insts.length cur)
+  | Stmt.names nets _ _ => (namesInfo st nets).flatMap (joinOf st.insts.length cur)
+  | Stmt.latch toks _ => (latchOrder.zip toks).flatMap (joinOf st.insts.length cur)
+  | Stmt.conn _ _ => []
+  | Stmt.blackbox => []
+
+/-- all pairs a statement list declares (the state is threaded only for the instance count and
+    for the port names of the `.names` definitions) -/
+def bodyJoins (st : St) (cur : String) : List Stmt → List (Pin × Key)
+  | [] => []
+  | s :: r => stmtJoins st cur s ++
+      (match elabStmt st cur s with
+       | Except.ok st1 => bodyJoins st1 cur r
+       | Except.error _ => [])
+
+/-- state-free form for bodies without `.names`: `n` = number of instances so far -/
+def declaredJoins (n : Nat) (cur : String) : List Stmt → List (Pin × Key)
+  | [] => []
+  | Stmt.subckt _ _ conns _ :: r => (infoMapOf conns).flatMap (joinOf n cur) ++ declaredJoins (n + 1) cur r
+  | Stmt.latch toks _ :: r => (latchOrder.zip toks).flatMap (joinOf n cur) ++ declaredJoins (n + 1) cur r
+  | Stmt.names _ _ _ :: r => declaredJoins (n + 1) cur r
+  | _ :: r => declaredJoins n cur r
+
+/-- pins are exactly where the declared joins put them -/
+def Exact (st : St) (J : List (Pin × Key)) : Prop :=
+  ∀ p k, p ∈ st.pins k ↔ ∃ k', (p, k') ∈ J ∧ st.alias k' = k
+
+/-! ### instance data and header ports -/
+
+/-- `.cname/.attr/.param` data of an instance: (cname, attrs, params) -/
+def infoOf (i : Inst) : Option String × List (String × String) × List (String × String) :=
+  (i.cname, i.attrs, i.params)
+
+/-- what the info lines of a statement make of the data (dict semantics: a repeated key keeps its
+    place and takes the last value; the last `.cname` counts) -/
+def infoFold : List InfoStmt → Option String × List (String × String) × List (String × String) →
+    Option String × List (String × String) × List (String × String)
+  | [], x => x
+  | InfoStmt.cname n :: r, (_, a, p) => infoFold r (some n, a, p)
+  | InfoStmt.attr k v :: r, (c, a, p) => infoFold r (c, dictSet a k v, p)
+  | InfoStmt.param k v :: r, (c, a, p) => infoFold r (c, a, dictSet p k v)
 
 end Spydr.Eblif
